@@ -2,3 +2,8 @@
 From Rsbdd Require Import Lang.FSem Gen.Queens Gen.Forms.
 Theorem C15 n s : 1 <= n -> (fsem (queens_form n) s = true <-> Queens.sol n s). Proof. exact (C15_formula n s). Qed.
 Print Assumptions C15.
+
+(** 4-queens has a solution: queens on cells 1, 7, 8, 14 *)
+Example C15_instance : fsem (queens_form 4) (fun v => match v with 1 | 7 | 8 | 14 => true | _ => false end) = true
+                       /\ fsem (queens_form 3) (fun v => match v with 0 | 5 | 7 => true | _ => false end) = false.
+Proof. split; vm_compute; reflexivity. Qed.
